@@ -116,6 +116,7 @@ class NameToIndex(Contract):
 
 class Accessor(Contract):
     """range / resolution / amplification_type / amplifier_gain / detector_voltage / channel_labels"""
+    frame_result = None       # accessors hand out stored values (range() returns the stored list itself): reading only
     property_ids = ('C04', 'C03', 'C19', 'C13')
     config = {'call_contracts': io_specs.summaries('FlowCal.io.FCSData._name_to_index',
                                                    'FlowCal.io.FCSData.__array_finalize__')}
@@ -194,6 +195,8 @@ class ArrayFinalize(Contract):
     """C20/C13/C04: every attribute assigned in __new__ is propagated to a derived array, as a fresh deep copy"""
     target = 'FlowCal.io.FCSData.__array_finalize__'
     property_ids = ('C20', 'C13', 'C04')
+    frame_modifies = (0,)     # the new array receives the attributes
+    frame_result = None
 
     def cases(self):
         return [{'label': 'from-sample'}, {'label': 'from-none'}, {'label': 'from-plain-array'}]
@@ -349,7 +352,8 @@ def make_col_key(I, form, D, aux):
 class GetItem(Contract):
     """C04: metadata stays aligned with the columns under every indexing expression"""
     target = 'FlowCal.io.FCSData.__getitem__'
-    property_ids = ('C04',)
+    property_ids = ('C04', 'C13')
+    frame_result = 'may-view'     # slicing/viewing may share the event buffer (as NumPy views do), never metadata
     config = {'call_contracts': io_specs.summaries('FlowCal.io.FCSData._name_to_index',
                                                    'FlowCal.io.FCSData.__array_finalize__')}
     max_paths = 600
@@ -577,6 +581,8 @@ class SetItem(Contract):
     """C04 (last clause): assignment through the same expressions writes exactly the addressed cells"""
     target = 'FlowCal.io.FCSData.__setitem__'
     property_ids = ('C04',)
+    frame_modifies = (0,)
+    frame_result = None
     config = {'call_contracts': io_specs.summaries('FlowCal.io.FCSData._name_to_index',
                                                    'FlowCal.io.FCSData.__array_finalize__')}
 
@@ -639,6 +645,7 @@ class PickleRoundTrip(Contract):
     """C20: __setstate__(fresh, __reduce__(x)[2]) restores every attribute and the array part"""
     target = 'FlowCal.io.FCSData.__reduce__'
     property_ids = ('C20',)
+    frame_result = None       # the pickle state refers to the sample's attributes; pickling serialises them
 
     def cases(self):
         return [{'label': 'ndarray-state-3-tuple', 'shape': 3}, {'label': 'ndarray-state-2-tuple', 'shape': 2}]
